@@ -118,6 +118,9 @@ type c04Plan struct {
 	// Replace = k > 0: before the examined round, an earlier round is completed with everybody and then participant k-1
 	// replaces its airgapped machine (same user name, new keys) while the other machines keep running
 	Replace int `json:"replace,omitempty"`
+	// LongPw: the operators use long passphrases (more than 32 bytes); near misses of the passphrase - last byte
+	// changed, dropped or added, cut to 32 or 33 bytes - are tried as wrong passwords in addition to the drawn ones
+	LongPw bool `json:"long_pw,omitempty"`
 }
 
 func c04Gen(rt *rapid.T) c04Plan {
@@ -129,6 +132,7 @@ func c04Gen(rt *rapid.T) c04Plan {
 	if rapid.IntRange(0, 2).Draw(rt, "replace") == 0 {
 		p.Replace = 1 + rapid.IntRange(0, p.N-1).Draw(rt, "replaced")
 	}
+	p.LongPw = rapid.Bool().Draw(rt, "longPw")
 	return p
 }
 
@@ -143,13 +147,18 @@ func c04Run(t *testing.T, st *vstat.Stats, p c04Plan) (v *viol) {
 	synctest.Test(t, func(t *testing.T) {
 		root := tmpRoot("c04-")
 		defer os.RemoveAll(root)
-		w, err := world.New(world.Config{N: p.N, Seed: []byte(fmt.Sprintf("c04|%d|%d|%d", p.N, p.T, p.Tag)), Root: root})
+		cfg := world.Config{N: p.N, Seed: []byte(fmt.Sprintf("c04|%d|%d|%d", p.N, p.T, p.Tag)), Root: root}
+		if p.LongPw {
+			cfg.PasswordSuffix = " correct horse battery staple plus some more words"
+		}
+		w, err := world.New(cfg)
 		if err != nil {
 			v = violf("harness", "%v", err)
 			return
 		}
 		defer w.Close()
 		if p.Replace > 0 {
+			p.Replace = 1 + (p.Replace-1)%p.N // plans whose n was overridden after generation
 			_, err := w.StartDKG(p.N-1, p.T, nil)
 			if err == nil {
 				err = w.Quiesce(80)
@@ -377,8 +386,13 @@ func c04Run(t *testing.T, st *vstat.Stats, p c04Plan) (v *viol) {
 				atRest = append(atRest, s)
 			}
 		}
+		wrongs := append([]string{}, p.Wrong...)
+		if pw := string(m.Password); p.LongPw && len(pw) > 34 {
+			wrongs = append(wrongs, pw[:len(pw)-1], pw+"x", pw[:len(pw)-1]+"#", pw[:32], pw[:33], pw[1:], strings.ToUpper(pw))
+			st.Class("long-passphrase-with-near-misses")
+		}
 		// first on the live machine: after the password expired (DropSensitiveData) a wrong password must not unlock anything
-		for _, wp := range p.Wrong {
+		for _, wp := range wrongs {
 			if wp == string(m.Password) {
 				continue
 			}
@@ -419,7 +433,7 @@ func c04Run(t *testing.T, st *vstat.Stats, p c04Plan) (v *viol) {
 				return
 			}
 		}
-		for _, wp := range p.Wrong {
+		for _, wp := range wrongs {
 			if wp == string(m.Password) {
 				continue
 			}
